@@ -145,6 +145,7 @@ def meta(idx: int, rf0: bool, rf1: bool) -> bool:
     pre: LO <= idx < HI
     post: _
     """
+    xs.path_start()
     idx = xs.pick(idx, LO, HI)
     with xs.nt():
         text, rcs, hints, fcs, name, text2, alpha_code = cases()[idx]
@@ -235,6 +236,7 @@ def prec(idx: int) -> bool:
     pre: LO <= idx < HI
     post: _
     """
+    xs.path_start()
     idx = xs.pick(idx, LO, HI)
     with xs.nt():
         mn, full, ac = prec_cases()[idx]
